@@ -5,3 +5,5 @@ pub uninterp spec fn spec_sha512(s: Seq<u8>) -> Seq<u8>;
 pub uninterp spec fn spec_ripemd160(s: Seq<u8>) -> Seq<u8>;
 pub open spec fn spec_sha256d(s: Seq<u8>) -> Seq<u8> { spec_sha256(spec_sha256(s)) }
 pub open spec fn spec_hash160(s: Seq<u8>) -> Seq<u8> { spec_ripemd160(spec_sha256(s)) }
+// output lengths of the hash functions (named axioms; listed in the evidence)
+pub axiom fn axiom_hash_lengths(s: Seq<u8>) ensures spec_sha256(s).len() == 32, spec_sha1(s).len() == 20, spec_sha512(s).len() == 64, spec_ripemd160(s).len() == 20;
